@@ -5,9 +5,8 @@ From LTV.C01 Require Import ParamsGen Model Proofs.
 Import ListNotations.
 Open Scope N_scope.
 
-Definition params_ok : bool :=
-  (Params.c01_block_size =? 16384) && (0 <? Params.c01_max_failed) &&
-  (Params.c01_piece_len_min_excl <? Params.c01_block_size) && (Params.c01_block_size <? Params.c01_msg_len_limit).
+(* what the proofs need of the constants: a positive block size (any value), a positive failure limit *)
+Definition params_ok : bool := (0 <? Params.c01_block_size) && (0 <? Params.c01_max_failed).
 Lemma params_ok_now : params_ok = true.
 Proof. vm_compute. reflexivity. Qed.
 
@@ -100,18 +99,18 @@ End ProofsB.
    refuses every connected peer for every block (stale finished transfers keep their peer), nothing is queued, nobody is
    receiving, no hash job is pending: no event that could lead to completion is enabled although the honest peer is
    connected. Replayed on the real code: corpus/C01/witnesses.case (third case). *)
-Definition toyH (l : list N) : list N := firstn 1 l ++ firstn 1 (skipn (N.to_nat 16384) l).
+Definition toyH (l : list N) : list N := firstn 1 l ++ firstn 1 (skipn (N.to_nat bs) l).
 Definition toy_expected (_ : N) : list N := [7; 7].
-Definition toy_psize (_ : N) : N := 16385.
+Definition toy_psize (_ : N) : N := (bs + 1).
 Definition blk (v : N) (n : N) : list N := repeat v (N.to_nat n).
 Definition toy_trace : list event :=
   [ EConn 0; EConn 1; ENew 0; EIns 0 0 0; EIns 1 0 1;
-    EPiece 0 0 0 16384 true; EData 0 (blk 9 16384); EPiece 1 0 16384 1 true; EData 1 [7];
+    EPiece 0 0 0 bs true; EData 0 (blk 9 bs); EPiece 1 0 bs 1 true; EData 1 [7];
     EHashQueued 0; EHashDone 0 false; EHashQueued 0; EHashDone 0 false;
     EIns 1 0 0; EIns 0 0 1;
-    EPiece 1 0 0 16384 true; EData 1 (blk 7 16384); EPiece 0 0 16384 1 true; EData 0 [9];
+    EPiece 1 0 0 bs true; EData 1 (blk 7 bs); EPiece 0 0 bs 1 true; EData 0 [9];
     EHashQueued 0; EHashDone 0 false; EHashQueued 0; EHashDone 0 false ].
-Definition toy_init : state := init [blk 0 16385] [].
+Definition toy_init : state := init [blk 0 (bs + 1)] [].
 Definition stuck_check (s : state) : bool :=
   memN 1 (conns s) && negb (memN 0 (completed s)) && listed s 0 &&
   forallb (fun x => negb (finished x) && match b_queued x with [] => true | _ => false end) (blocks s) &&
